@@ -189,6 +189,11 @@ func (v *Verifier) Run() (err error) {
 				err = nil
 				return
 			}
+			if os.Getenv("GOVC_SWEEP") == "1" {
+				v.unsup = append(v.unsup, fmt.Sprintf("internal: %v", r))
+				err = nil
+				return
+			}
 			panic(r)
 		}
 	}()
@@ -239,6 +244,21 @@ func (v *Verifier) Run() (err error) {
 	// is turned into an interface value)
 	if fn.Signature.Recv() != nil && len(fn.Params) > 0 {
 		v.valueInvariants(st, fr.regs[fn.Params[0]], fn.Params[0].Type(), true, fn.Pos())
+	}
+	// development aid (GOVC_SWEEP=1, never used by the registered checks): a function without
+	// contract is swept for panics under the assumption that its pointer, interface, map and
+	// function parameters are non-nil
+	if v.fc == nil && os.Getenv("GOVC_SWEEP") == "1" {
+		for _, p := range fn.Params {
+			pv := fr.regs[p]
+			if pv.cell != nil || len(pv.L) == 0 {
+				continue
+			}
+			switch p.Type().Underlying().(type) {
+			case *types.Pointer, *types.Interface, *types.Map, *types.Signature, *types.Chan:
+				st.assume(Not(Eq(pv.L[0], IntLit(0))))
+			}
+		}
 	}
 	// preconditions
 	if v.fc != nil {
